@@ -192,7 +192,7 @@ def make_renderers(rdefs):
 
 # ------------------------------------------------------------------ canonical dump
 def children(o):
-    t = type(o)
+    t = bt(o)
     if t is Table:
         return [o.database] + list(o.columns) + list(o.indexes) + [o.note]
     if t is Column:
@@ -229,7 +229,7 @@ def bfs(roots):
     while i < len(queue):
         o = queue[i]
         i += 1
-        if id(o) in seen or type(o) not in LETTER:
+        if id(o) in seen or bt(o) not in LETTER:
             continue
         seen.add(id(o))
         order.append(o)
@@ -247,7 +247,7 @@ class Dumper:
         if o is None:
             return '~'
         if id(o) in self.num:
-            return LETTER[type(o)] + str(self.num[id(o)])
+            return LETTER[bt(o)] + str(self.num[id(o)])
         return '?'
 
     def ptrs(self, l):
@@ -269,7 +269,7 @@ class Dumper:
         return '[' + ','.join(hexs(k) + '=' + hexs(v) for k, v in x.items()) + ']'
 
     def line(self, o):
-        t = type(o)
+        t = bt(o)
         p = self.ptr(o)
         f = []
         if t is Table:
@@ -343,14 +343,37 @@ def dump(slots, classes):
 
 
 # ------------------------------------------------------------------ interpreter
+_BASES = None
+
+
+def bt(o):
+    """the library class of an object (instances of user subclasses count as instances of the class they extend)"""
+    global _BASES
+    if _BASES is None:
+        _BASES = (Note, Expression, Column, Index, Table, Reference, EnumItem, Enum, StickyNote, Project, TableGroup, Database)
+    t = type(o)
+    if t in _BASES:
+        return t
+    for b in t.__mro__:
+        if b in _BASES:
+            return b
+    return t
+
+
 class Skip(Exception):
     pass
 
 
 class Interp:
-    def __init__(self, rdefs):
+    def __init__(self, rdefs, subclass=False):
         self.classes = make_renderers(rdefs)
         self.slots = []
+        K = dict(Note=Note, Expression=Expression, Column=Column, Index=Index, Table=Table, Reference=Reference, EnumItem=EnumItem,
+                 Enum=Enum, StickyNote=StickyNote, Project=Project, TableGroup=TableGroup, Database=Database)
+        if subclass:
+            # every object is an instance of a trivial user subclass of its library class
+            K = {k: type('My' + k, (v_,), {}) for k, v_ in K.items()}
+        self.K = K
 
     def slot(self, n):
         if n >= len(self.slots) or self.slots[n] is None:
@@ -402,50 +425,59 @@ class Interp:
         return 'obj', r
 
     def _exec(self, c, a):
-        sl, val = self.slot, self.val
+        sl, val, K = self.slot, self.val, self.K
         if c == 10:
-            return Note(a[0])
+            return K['Note'](a[0])
         if c == 11:
-            return Expression(a[0])
+            return K['Expression'](a[0])
         if c == 12:
             n, ty, u, nn, pk, ai, d, nt, cm, p = a
-            return Column(name=n, type=val(ty), unique=u, not_null=nn, pk=pk, autoinc=ai, default=val(d),
+            return K['Column'](name=n, type=val(ty), unique=u, not_null=nn, pk=pk, autoinc=ai, default=val(d),
                           note=val(nt), comment=cm, properties=dict(p))
         if c == 13:
             s, n, u, ty, pk, nt, cm = a
-            return Index(subjects=val(s), name=n, unique=u, type=ty, pk=pk, note=val(nt), comment=cm)
+            return K['Index'](subjects=val(s), name=n, unique=u, type=ty, pk=pk, note=val(nt), comment=cm)
         if c == 14:
             n, s, al, cs, is_, nt, hc, cm, ab, p = a
             cols = [sl(x) for x in cs]
             idxs = [sl(x) for x in is_]
             note = val(nt)
-            return Table(name=n, schema=s, alias=al, columns=cols, indexes=idxs, note=note, header_color=hc,
+            return K['Table'](name=n, schema=s, alias=al, columns=cols, indexes=idxs, note=note, header_color=hc,
                          comment=cm, abstract=ab, properties=dict(p))
         if c == 15:
             ty, c1, c2, n, cm, ou, od, il = a
-            col1 = None if c1 is None else [sl(x) for x in c1]
-            col2 = None if c2 is None else [sl(x) for x in c2]
+            def side(cs):
+                # a side that lists exactly the columns of a table is passed as that table's own list object (the
+                # caller's list must never be kept: Reference copies it)
+                l = [sl(x) for x in cs]
+                tb = getattr(l[0], 'table', None) if l else None
+                own = getattr(tb, 'columns', None)
+                if isinstance(own, list) and len(own) == len(l) and all(a_ is b_ for a_, b_ in zip(own, l)):
+                    return own
+                return l
+            col1 = None if c1 is None else side(c1)
+            col2 = None if c2 is None else side(c2)
             if col1 is None or col2 is None:
-                r = Reference(ty, [], [], name=n, comment=cm, on_update=ou, on_delete=od, inline=il)
+                r = K['Reference'](ty, [], [], name=n, comment=cm, on_update=ou, on_delete=od, inline=il)
                 r.col1, r.col2 = (col1, col2)
                 return r
-            return Reference(ty, col1, col2, name=n, comment=cm, on_update=ou, on_delete=od, inline=il)
+            return K['Reference'](ty, col1, col2, name=n, comment=cm, on_update=ou, on_delete=od, inline=il)
         if c == 16:
             n, nt, cm = a
-            return EnumItem(n, note=val(nt), comment=cm)
+            return K['EnumItem'](n, note=val(nt), comment=cm)
         if c == 17:
             n, its, s, cm = a
-            return Enum(n, [val(x) for x in its], schema=s, comment=cm)
+            return K['Enum'](n, [val(x) for x in its], schema=s, comment=cm)
         if c == 18:
-            return StickyNote(a[0], a[1])
+            return K['StickyNote'](a[0], a[1])
         if c == 19:
             n, its, nt, cm = a
-            return Project(n, items=dict(its), note=val(nt), comment=cm)
+            return K['Project'](n, items=dict(its), note=val(nt), comment=cm)
         if c == 20:
             n, its, cm, nt, col = a
-            return TableGroup(n, [sl(x) for x in its], comment=cm, note=None if nt is None else sl(nt), color=col)
+            return K['TableGroup'](n, [sl(x) for x in its], comment=cm, note=None if nt is None else sl(nt), color=col)
         if c == 21:
-            return Database(sql_renderer=self.classes[a[0]], dbml_renderer=self.classes[a[1]], allow_properties=a[2])
+            return K['Database'](sql_renderer=self.classes[a[0]], dbml_renderer=self.classes[a[1]], allow_properties=a[2])
         if c == 30:
             m, d, o = a
             db, ob = sl(d), sl(o)
@@ -474,11 +506,11 @@ class Interp:
             return None
         if c == 60:
             ob = sl(a[0])
-            name = ATTRS.get(type(ob), {}).get(a[1])
+            name = ATTRS.get(bt(ob), {}).get(a[1])
             if name is None:
                 raise Skip()
             v = val(a[2])
-            if type(ob) is Database and a[1] in (2, 3):
+            if bt(ob) is Database and a[1] in (2, 3):
                 v = self.classes[v]
             setattr(ob, name, v)
             return None
@@ -507,7 +539,7 @@ class Interp:
             return ('text', dump(self.slots, self.classes))
         if c == 83:
             ob = sl(a[0])
-            if type(ob) not in (Table, Column, Index, EnumItem, Project, TableGroup):
+            if bt(ob) not in (Table, Column, Index, EnumItem, Project, TableGroup):
                 raise Skip()
             return ob.note
         if c == 84:
@@ -518,8 +550,8 @@ class Interp:
             return self.parse(*a)
         if c == 61:
             ob = sl(a[0])
-            name = ATTRS.get(type(ob), {}).get(a[1])
-            if name not in ('properties', 'items') or type(ob) is TableGroup:
+            name = ATTRS.get(bt(ob), {}).get(a[1])
+            if name not in ('properties', 'items') or bt(ob) is TableGroup:
                 raise Skip()
             getattr(ob, name)[a[2]] = a[3]
             return None
